@@ -905,7 +905,7 @@ func (ex *Exec) loopFrameAxioms(fr *Frame, li *loopInfo, pc0 *Term, st0, st1 *St
 }
 
 func isFreshObjRef(t *Term, water int) bool {
-	return t.leaf && t.id > water && (strings.HasPrefix(t.op, "new.") || strings.HasPrefix(t.op, "arr.") || strings.HasPrefix(t.op, "chan") || strings.HasPrefix(t.op, "map") || strings.HasPrefix(t.op, "buf"))
+	return t.leaf && t.id > water && (strings.HasPrefix(t.op, "new.") || strings.HasPrefix(t.op, "arr.") || strings.HasPrefix(t.op, "chan") || strings.HasPrefix(t.op, "map") || strings.HasPrefix(t.op, "buf") || strings.HasPrefix(t.op, "escaped"))
 }
 
 func maxLeafID(t *Term) int {
